@@ -4,7 +4,8 @@ JSON-lines driver for the engine "Sources" (C04).  Run with
 One case per input line:
   {"parser": {"args": [{"dest": [seg…], "kind": "scalar|list|dict|config", "default": VAL}…],
               "env_prefix": STR|null, "default_env": BOOL, "os_default_env": STR|null},
-   "files": [TREE|null …], "env": [[NAME, VAL]…],
+   "files": [TREE|null …]  (or "patterns": [STR…], "glob": [[PATTERN, [FILE…]]…], "contents": [[FILE, TREE|null]…]: the model orders them),
+   "env": [[NAME, VAL]…]  (os.environ),  "call": {"defaults": BOOL, "env_arg": BOOL|null, "environ": [[NAME, VAL]…]|null}?,
    "argv": [{"t":"set|append","k":[seg…],"v":VAL} | {"t":"item","k":[seg…],"i":STR,"v":VAL} | {"t":"cfg","k":[seg…],"tree":TREE}…],
    "method": "args|env|string|object", "tree": TREE?}
 VAL  = null | INT | {"s": STR} | [VAL…] | {"d": [[STR, VAL]…]} | {"n": [[STR, VAL]…]};  TREE = {"d": [[STR, VAL]…]}
@@ -119,32 +120,72 @@ def itemOfJson (j : Json) : Except String Item := do
   | "cfg" => pure (.cfg k (← treeOfJson (← j.getObjVal? "tree")))
   | _ => throw ("bad item " ++ t)
 
-def runCase (j : Json) : Except String Json := do
-  let p ← parserOfJson (← j.getObjVal? "parser")
-  let files ← (arrOf j "files").mapM (fun f => match f with
-    | .null => pure none
-    | t => do pure (some (← treeOfJson t)))
-  let env ← (arrOf j "env").mapM (fun e => match e with
+def envOfJson (xs : List Json) : Except String (List (String × V)) :=
+  xs.mapM (fun e => match e with
     | .arr #[.str n, v] => do pure (n, ← vOfJson v)
     | _ => throw "bad env entry")
+
+def callOfJson (j : Json) : Except String Call := do
+  let defaults := match j.getObjVal? "defaults" with
+    | .ok (.bool b) => b
+    | _ => true
+  let envArg := match j.getObjVal? "env_arg" with
+    | .ok (.bool b) => some b
+    | _ => none
+  let environ ← match j.getObjVal? "environ" with
+    | .ok (.arr xs) => do pure (some (← envOfJson xs.toList))
+    | _ => pure none
+  pure { defaults := defaults, envArg := envArg, environ := environ }
+
+def strList (j : Json) : List String :=
+  match j with
+  | .arr xs => xs.toList.filterMap (fun x => match x with | .str s => some s | _ => none)
+  | _ => []
+
+def runCase (j : Json) : Except String Json := do
+  let p ← parserOfJson (← j.getObjVal? "parser")
+  -- default config files: either the ordered contents ("files"), or the listed entries + the match relation + the contents,
+  -- from which the MODEL computes the order (`_get_default_config_files`)
+  let files ← match j.getObjVal? "patterns" with
+    | .ok pats => do
+      let globTab := (arrOf j "glob").filterMap (fun e => match e with
+        | .arr #[.str pat, names] => some (pat, strList names)
+        | _ => none)
+      let contents ← (arrOf j "contents").mapM (fun e => match e with
+        | .arr #[.str n, .null] => pure (n, (none : Option KV))
+        | .arr #[.str n, t] => do pure (n, some (← treeOfJson t))
+        | _ => throw "bad contents entry")
+      let glob := fun (pat : String) => ((globTab.find? (·.1 == pat)).map (·.2)).getD []
+      let content := fun (n : String) => ((contents.find? (·.1 == n)).map (·.2)).getD none
+      pure (resolveFiles (fun a b => decide (a ≤ b)) glob content (strList pats))
+    | .error _ => (arrOf j "files").mapM (fun f => match f with
+      | .null => pure none
+      | t => do pure (some (← treeOfJson t)))
+  let env ← envOfJson (arrOf j "env")
   let argv ← (arrOf j "argv").mapM itemOfJson
   let src : Sources := { files := files, env := env, argv := argv }
+  let call ← match j.getObjVal? "call" with
+    | .ok c => callOfJson c
+    | .error _ => pure {}
   let method ← (← j.getObjVal? "method").getStr?
   let tree ← match j.getObjVal? "tree" with
     | .ok t => treeOfJson t
     | .error _ => pure []
-  let (cfg, itemsOk, asg) ← match method with
-    | "args" => pure (parseArgs p src, argv.all (itemOk p), asgAll p src)
-    | "env" => pure (parseEnv p src, true, asgBase p src true)
-    | "string" => pure (parseString p src tree, true, asgBase p src (envOn p) ++ asgTree (expand p tree))
-    | "object" => pure (parseObject p src tree, true, asgBase p src (envOn p) ++ asgTree (expand p tree))
+  let callEnv : Call := { call with envArg := some true }
+  let merged := call.defaults || call.envArg == some true
+  let (cfg, itemsOk, asg, callUsed) ← match method with
+    | "args" => pure (parseArgsC p src call, argv.all (itemOk p), asgAllC p src call, call)
+    | "env" => pure (parseEnvC p src call, true, asgBaseC p src callEnv, callEnv)
+    | "string" => pure (parseStringC p src call tree, true,
+        (if merged then asgBaseC p src call else []) ++ asgTree (expand p tree), call)
+    | "object" => pure (parseObjectC p src call tree, true, asgBaseC p src call ++ asgTree (expand p tree), call)
     | m => throw ("bad method " ++ m)
   -- is the case inside the domain of the theorems of Props/C04, and does the guard of C04_order hold at every non-config key?
-  let envRead := method == "env" || envOn p
-  let treeWf := if method == "string" || method == "object" then treeOk p (expand p tree) else true
+  let treeWf := if method == "string" || method == "object" then treeOk p (expand p tree) && (method != "string" || merged) else true
   let srcUsed : Sources := if method == "args" then src else { src with argv := [] }
-  let inDomain := wfParser p && srcWf p srcUsed && treeWf && itemsOk
-  let guard := !envRead || p.args.all (fun a => a.kind == .config || envPlain p src.env a.dest)
+  let inDomain := wfParser p && srcWfC p srcUsed callUsed && treeWf && itemsOk
+  let guard := !(callUsed.defaults && envRead p callUsed.envArg) ||
+    p.args.all (fun a => a.kind == .config || envPlain p (environOf src callUsed) a.dest)
   pure (Json.mkObj [("model", vToJson (.ns cfg)), ("ok", .bool (itemsOk && valid p cfg)),
                     ("ref", vToJson (.ns (refFold asg []))), ("domain", .bool inDomain), ("guard", .bool guard)])
 
